@@ -71,14 +71,39 @@ Section PencilProof.
     - apply rhs_upper_plain.
   Qed.
 
-  Theorem lltsa_problem_gen D N (X : mat F) (W : sparse F) :
+  (* after F9, before F25: lhs carries the spurious mean term *)
+  Theorem lltsa_f9_pencil_gen D N (X : mat F) (W : sparse F) :
     indices_ok N W ->
-    is_pencil D (lltsa_lhs N X W) (lltsa_rhs N X) (lltsa_repaired X N W).
+    is_pencil D (lltsa_lhs_f9 N X W) (lltsa_rhs N X) (lltsa_repaired X N W).
   Proof.
     intros Hok. split; intros i j _ _; cbn [p_lhs p_rhs lltsa_repaired]; unfold sym_from_upper.
     - rewrite mean_update_upper, (lhs_upper N) by assumption.
-      unfold lltsa_lhs. rewrite XMXt_msub. reflexivity.
+      unfold lltsa_lhs_f9. rewrite XMXt_msub. reflexivity.
     - rewrite mean_update_upper, rhs_upper_plain. unfold lltsa_rhs. rewrite XMXt_Jn. reflexivity.
+  Qed.
+
+  Theorem lltsa_problem_gen D N (X : mat F) (W : sparse F) :
+    indices_ok N W ->
+    is_pencil D (lltsa_lhs N X W) (lltsa_rhs N X) (lltsa_fixed X N W).
+  Proof.
+    intros Hok. split; intros i j _ _; cbn [p_lhs p_rhs lltsa_fixed]; unfold sym_from_upper.
+    - apply lhs_upper. assumption.
+    - rewrite mean_update_upper, rhs_upper_plain. unfold lltsa_rhs. rewrite XMXt_Jn. reflexivity.
+  Qed.
+
+  (* the F9-only lhs differs from the property's by exactly (X 1)(X 1)^T / N *)
+  Theorem lltsa_f9_lhs_gap N (X : mat F) (W : sparse F) i j :
+    lltsa_lhs_f9 N X W i j =
+    lltsa_lhs N X W i j - / of_nat N * (sumn N (fun s => X i s) * sumn N (fun t => X j t)).
+  Proof. unfold lltsa_lhs_f9, lltsa_lhs. rewrite XMXt_msub, XMXt_mconst. reflexivity. Qed.
+
+  (* ... so on centred features (all feature sums zero) it is the property's lhs *)
+  Theorem lltsa_f9_centred_ok D N (X : mat F) (W : sparse F) :
+    indices_ok N W -> (forall f, f < D -> sumn N (fun s => X f s) = 0) ->
+    is_pencil D (lltsa_lhs N X W) (lltsa_rhs N X) (lltsa_repaired X N W).
+  Proof.
+    intros Hok Hc. destruct (lltsa_f9_pencil_gen D N X W Hok) as [HA HB]. split; [|assumption].
+    intros i j Hi Hj. rewrite (HA i j Hi Hj), lltsa_f9_lhs_gap, (Hc i Hi). ring.
   Qed.
 
   Theorem lpp_problem_gen D N (X : mat F) (L : sparse F) (dv : vec F) :
@@ -110,11 +135,20 @@ Section PencilProof.
 
   Theorem lltsa_seen_gen D N (X : mat F) (W : sparse F) :
     indices_ok N W ->
-    solver_sees D (lltsa_lhs N X W) (lltsa_rhs N X) (lltsa_repaired X N W).
+    solver_sees D (lltsa_lhs N X W) (lltsa_rhs N X) (lltsa_fixed X N W).
+  Proof.
+    intros Hok. apply seen_sym_from_upper; intros i j.
+    - apply lhs_upper. assumption.
+    - rewrite mean_update_upper, rhs_upper_plain. unfold lltsa_rhs. rewrite XMXt_Jn. reflexivity.
+  Qed.
+
+  Theorem lltsa_f9_seen_gen D N (X : mat F) (W : sparse F) :
+    indices_ok N W ->
+    solver_sees D (lltsa_lhs_f9 N X W) (lltsa_rhs N X) (lltsa_repaired X N W).
   Proof.
     intros Hok. apply seen_sym_from_upper; intros i j.
     - rewrite mean_update_upper, (lhs_upper N) by assumption.
-      unfold lltsa_lhs. rewrite XMXt_msub. reflexivity.
+      unfold lltsa_lhs_f9. rewrite XMXt_msub. reflexivity.
     - rewrite mean_update_upper, rhs_upper_plain. unfold lltsa_rhs. rewrite XMXt_Jn. reflexivity.
   Qed.
 
@@ -131,6 +165,7 @@ Section PencilProof.
   Theorem repaired_tables_symmetric D N (X : mat F) (W : sparse F) (dv : vec F) :
     msym D (p_lhs (npe_repaired X N W)) /\ msym D (p_rhs (npe_repaired X N W)) /\
     msym D (p_lhs (lltsa_repaired X N W)) /\ msym D (p_rhs (lltsa_repaired X N W)) /\
+    msym D (p_lhs (lltsa_fixed X N W)) /\ msym D (p_rhs (lltsa_fixed X N W)) /\
     msym D (p_lhs (lpp_repaired X N W dv)) /\ msym D (p_rhs (lpp_repaired X N W dv)).
   Proof. repeat split; apply read_upper_sym. Qed.
 
@@ -291,7 +326,7 @@ Section PencilProof.
 
   Theorem lltsa_solution D d N (X : mat F) (W : sparse F) (V P : mat F) lam :
     indices_ok N W -> d <= D ->
-    oracle_contract D (p_lhs (seen (lltsa_repaired X N W))) (p_rhs (seen (lltsa_repaired X N W))) V lam ->
+    oracle_contract D (p_lhs (seen (lltsa_fixed X N W))) (p_rhs (seen (lltsa_fixed X N W))) V lam ->
     select_cols D d V = Ok P ->
     gen_eig_solution D d (lltsa_lhs N X W) (lltsa_rhs N X) P lam.
   Proof.
@@ -373,7 +408,8 @@ Section PencilProof.
   Proof.
     intros HN. unfold project. rewrite sumn_swap.
     apply sumn_zero'. intros f _.
-    rewrite sumn_mul_l, sumn_sub, sumn_const, compute_mean_is_mean. field. assumption.
+    rewrite sumn_mul_l, sumn_sub, sumn_const, compute_mean_is_mean.
+    change (fun s : nat => X f s) with (X f). field. assumption.
   Qed.
 
 End PencilProof.
